@@ -243,7 +243,7 @@ func c14Gen(t *rapid.T) c14Case {
 
 func TestVerif_C14(t *testing.T) {
 	vfTreeSnapshot()
-	vfRun(t, vfSub[c14Case]{Prop: "C14", Name: "machine", Checks: vfN(8000, 600000), Gen: c14Gen, Check: c14Check,
+	vfRun(t, vfSub[c14Case]{Prop: "C14", Name: "machine", Checks: vfN(8000, 3200000), Gen: c14Gen, Check: c14Check,
 		Sample: func(c c14Case) any {
 			var ops []any
 			for _, s := range c.Steps {
